@@ -105,3 +105,20 @@ Theorem C17_content_length_nonnegative :
     end.
 Proof. exact header_len_nonneg. Qed.
 Print Assumptions C17_content_length_nonnegative.
+
+(* On EVERY stream, from every source obeying the contract, reading ends: all
+   records (then C17_success_is_exact applies) or an error that is not fuel
+   exhaustion.  Together: broken framing is an error -- not a hang, not a silent
+   resynchronisation, not a shorter success. *)
+Theorem C17_never_hangs :
+  forall (rstate : Type) (rread : rstate -> N -> option (list Z * rstate))
+         (rem : rstate -> list Z) (rinv : rstate -> Prop),
+    rread_contract rstate rread rem rinv ->
+    forall (n fuel : nat) (rs : rstate) (ov : list Z),
+      rinv rs -> (length (ov ++ rem rs) < n)%nat -> (length (ov ++ rem rs) + 1 < fuel)%nat ->
+      match warc_read_all rstate rread n fuel rs ov with
+      | AllOk _ => True
+      | AllErr e _ => e <> WHang
+      end.
+Proof. exact never_hangs_proof. Qed.
+Print Assumptions C17_never_hangs.
